@@ -91,6 +91,23 @@ def build(tier: str) -> List[Cond]:
             add("o_roundtrip", L, spec, "A2", A)
             if tier == "thorough" or r % 3 == 0 or len(sub) > 2:
                 add("o_text", L, spec, "B2", B)
+    # equality by the library's own == : mixed numeric / named values at one position (ordering and hashing of Mod values)
+    E = "the annotation parsed back from its serialization is == to the original (library ==, both directions, != consistent)"
+    mixes = [((11, 1), (0, 2)), ((14, 3), (19, 1)), ((15, 1), (22, 1)), ((13, 2), (26, 1), (29, 1))]
+    for j, slot in enumerate(LIST_SLOTS):
+        for k, mix in enumerate(mixes):
+            if tier == "quick" and (j + k) % 2:
+                continue
+            spec = {slot: list(mix)}
+            conds.append(Cond(oid=f"E/L=2/{spec_id(spec)}", clause=E, module="vf.h.c01", func="o_equal", shape=dict(L=2, spec=spec),
+                              sym=[("p", "int"), ("a", "int"), ("b", "int"), ("amb", "bool"), ("plus", "bool")], pre=["0 <= p < 2", "0 <= a < b <= 2"],
+                              timeout=t, functions=FUNCS + ["ProFormaAnnotation.__eq__", "Mod.__lt__/__hash__", "Interval.__hash__"],
+                              bounds="2 residues (concrete), positions, interval bounds, ambiguity and include_plus realised (solver-driven enumeration)"))
+    full = {slot: list(mixes[i % len(mixes)]) for i, slot in enumerate(LIST_SLOTS)}
+    full.update(static=[0, 2], isotope=[0, 1], charge=2, adducts=1)
+    conds.append(Cond(oid="E/L=3/all-slots", clause=E, module="vf.h.c01", func="o_equal", shape=dict(L=3, spec=full),
+                      sym=[("p", "int"), ("a", "int"), ("b", "int"), ("amb", "bool"), ("plus", "bool")], pre=["0 <= p < 3", "0 <= a < b <= 3"],
+                      timeout=t, functions=FUNCS + ["ProFormaAnnotation.__eq__"], bounds="3 residues, every slot filled with mixed values"))
     # multi-chain
     for n in (2, 3):
         for L in (1, 2):
